@@ -26,6 +26,9 @@ extern "C" __attribute__((used, visibility("default"))) const char *__ubsan_defa
 	return "halt_on_error=1:exitcode=77:print_stacktrace=1";
 }
 
+#ifdef SIM_COV
+extern "C" void __gcov_dump(void);
+#endif
 int corpus_tool_main(int argc, char **argv);
 int selftest_main(int argc, char **argv);
 
@@ -412,6 +415,9 @@ static int cmd_trace(int argc, char **argv) {
 		printf("%llu %016llx %016llx %d\n", (unsigned long long) i, (unsigned long long) h.h, (unsigned long long) r.trace, (int) r.ok);
 	}
 	fflush(nullptr);
+#ifdef SIM_COV
+	__gcov_dump();
+#endif
 	_exit(0);
 }
 
